@@ -287,9 +287,15 @@ def run_configs(cfgs, opts, seed=0, procs=None, chunk=24):
     chunks = [(cfgs[i:i + chunk], opts, seed + i) for i in range(0, len(cfgs), chunk)]
     out = []
     ctx = mp.get_context("fork")
-    with ctx.Pool(procs, maxtasksperchild=8) as pool:
+    pool = ctx.Pool(procs, maxtasksperchild=8)
+    try:
         for res in pool.imap_unordered(_work, chunks):
             out.extend(res)
+        pool.close()
+    except BaseException:
+        pool.terminate()
+        raise
+    pool.join()
     return out
 
 
